@@ -5,6 +5,7 @@ mod refmodel;
 mod tape;
 mod tens;
 
+mod c01;
 mod c02;
 mod c03;
 mod c06;
@@ -69,6 +70,7 @@ fn main() {
     let out_dir = out_dir.unwrap_or_else(|| verif_dir.clone());
     let eng = Engine::new(&id, tier, seed, &verif_dir, &out_dir);
     let code = match id.as_str() {
+        "C01" => c01::run(&eng, replay.as_deref()),
         "C02" => c02::run(&eng, replay.as_deref()),
         "C03" => c03::run(&eng, replay.as_deref()),
         "C06" => c06::run(&eng, replay.as_deref()),
